@@ -25,12 +25,12 @@ struct vs_ostream { bool bad; };
 #define EM_COOKIE 9    /* cookie i */
 #define EM_DATA  10    /* ostream::write(ptr, len) */
 #define EM_CSTR  11    /* a const char* that is not a literal (H::Name) */
-size_t g_em_n, g_pos; int g_s_kind; long g_s_num; const void *g_s_ptr; unsigned long g_s_lo, g_s_hi; size_t g_s_len;
+size_t g_em_n, g_pos; int g_s_kind; long g_s_num; const void *g_s_ptr; unsigned long g_s_lo, g_s_hi, g_s_x, g_lit_x; size_t g_s_len;
 bool g_buf_full;       /* the response buffer refused an insertion: the cap (maximum response size) is reached */
 static inline void vs_em(struct vs_ostream *os, bool maybe_empty, int kind, long num, const void *p, unsigned long lo, unsigned long hi, size_t len)
 {
     if (os->bad) return;
-    if (g_em_n == g_pos) { g_s_kind = kind; g_s_num = num; g_s_ptr = p; g_s_lo = lo; g_s_hi = hi; g_s_len = len; }
+    if (g_em_n == g_pos) { g_s_kind = kind; g_s_num = num; g_s_ptr = p; g_s_lo = lo; g_s_hi = hi; g_s_x = (kind == EM_LIT ? g_lit_x : 0); g_s_len = len; }
     if (g_em_n < ((size_t)1 << 40)) g_em_n++;
     bool empty; bool refuse;
     if (!maybe_empty) empty = 0;
@@ -39,13 +39,15 @@ static inline void vs_em(struct vs_ostream *os, bool maybe_empty, int kind, long
 #define LIT_B(l, k)  ((unsigned long)(sizeof(l) - 1 > (k) ? (unsigned char)(l)[sizeof(l) - 1 > (k) ? (k) : 0] : 0) << (8 * ((k) % 8)))
 #define LIT_LO(l) (LIT_B(l,0) | LIT_B(l,1) | LIT_B(l,2) | LIT_B(l,3) | LIT_B(l,4) | LIT_B(l,5) | LIT_B(l,6) | LIT_B(l,7))
 #define LIT_HI(l) (LIT_B(l,8) | LIT_B(l,9) | LIT_B(l,10) | LIT_B(l,11) | LIT_B(l,12) | LIT_B(l,13) | LIT_B(l,14) | LIT_B(l,15))
-static inline struct vs_ostream *vs_os_lit_w(struct vs_ostream *os, size_t len, unsigned long lo, unsigned long hi)
+#define LIT_X(l)  (LIT_B(l,16) | LIT_B(l,17) | LIT_B(l,18) | LIT_B(l,19) | LIT_B(l,20) | LIT_B(l,21) | LIT_B(l,22) | LIT_B(l,23))
+static inline struct vs_ostream *vs_os_lit_w(struct vs_ostream *os, size_t len, unsigned long lo, unsigned long hi, unsigned long x)
 {
-    __CPROVER_assert(len >= 1 && len <= 16, "literal of 1..16 characters");
+    __CPROVER_assert(len >= 1 && len <= 24, "literal of 1..24 characters");
+    g_lit_x = x;
     vs_em(os, 0, EM_LIT, 0, 0, lo, hi, len);
     return os;
 }
-#define VS_OS_LIT(os, l) vs_os_lit_w(os, sizeof(l) - 1, LIT_LO(l), LIT_HI(l))
+#define VS_OS_LIT(os, l) vs_os_lit_w(os, sizeof(l) - 1, LIT_LO(l), LIT_HI(l), LIT_X(l))
 static inline struct vs_ostream vs_os_ctor(void *buf) { struct vs_ostream os; (void)buf; os.bad = 0; return os; }
 static inline struct vs_ostream *vs_os_chr(struct vs_ostream *os, char c) { vs_em(os, 0, EM_CHR, c, 0, 0, 0, 1); return os; }
 static inline struct vs_ostream *vs_os_int(struct vs_ostream *os, long v) { vs_em(os, 0, EM_INT, v, 0, 0, 0, 0); return os; }
@@ -70,6 +72,9 @@ static inline struct vs_ostream *vs_os_cookie(struct vs_ostream *os, const size_
 #else
 #define OBJ(p) FRESH(p, sizeof(*(p)))
 #endif
+/* encodingString(e): the text of encoding e (table lemmas in unit headers); here a name object per enumerator */
+const char vs_enc_names[8];
+#define VS_ENC_CHUNKED 4   /* Header::Encoding::Chunked (checked against the lowered enumerator below) */
 static inline bool vs_nondet_bool(void) { bool b; return b; }
 struct vs_promise { int state; };       /* 1 rejected here, 2 whatever the transport's promise becomes, 3 resolved */
 struct vs_rawbuf { size_t size; };
@@ -86,7 +91,7 @@ static inline struct vs_promise vs_async_write(void *transport, int fd, const st
     return p;
 }
 /* ---- the specification of the emitted sequence, piece by piece: is the sampled insertion the k-th one of the piece? ---- */
-#define S_LIT(l)   (g_s_kind == EM_LIT && g_s_lo == LIT_LO(l) && g_s_hi == LIT_HI(l))
+#define S_LIT(l)   (g_s_kind == EM_LIT && g_s_lo == LIT_LO(l) && g_s_hi == LIT_HI(l) && g_s_x == LIT_X(l))
 static inline bool vs_spec_statusline(size_t k, int version, int code)
 {
     return k == 0 ? (g_s_kind == EM_VER && g_s_num == version) : k == 1 ? S_LIT(" ") : k == 2 ? (g_s_kind == EM_INT && g_s_num == (long)code)
@@ -105,6 +110,22 @@ static inline bool vs_spec_content_length(size_t k, unsigned long len)
     return k == 0 ? S_LIT("Content-Length") : k == 1 ? S_LIT(": ")
          : k == 2 ? (g_s_kind == EM_INT && g_s_num == (long)len) : (k == 3 && g_s_kind == EM_CRLF);
 }
+static inline bool vs_spec_transfer_encoding(size_t k, int enc)
+{
+    return k == 0 ? S_LIT("Transfer-Encoding") : k == 1 ? S_LIT(": ")
+         : k == 2 ? (g_s_kind == EM_CSTR && g_s_ptr == (const void *)&vs_enc_names[enc & 7]) : (k == 3 && g_s_kind == EM_CRLF);
+}
+/* the head of a streamed response (ResponseStream's constructor): note the order cookies, then headers */
+static inline size_t vs_spec_stream_head_total(void) { return 6 + 3 * g_ncookies + 4 * g_nheaders + 4 + 1; }
+static inline bool vs_spec_stream_head(size_t k, int version, int code)
+{
+    size_t c0 = 6, h0 = c0 + 3 * g_ncookies, t0 = h0 + 4 * g_nheaders;
+    if (k < c0) return vs_spec_statusline(k, version, code);
+    if (k < h0) return vs_spec_cookies(k - c0);
+    if (k < t0) return vs_spec_headers(k - h0);
+    if (k < t0 + 4) return vs_spec_transfer_encoding(k - t0, VS_ENC_CHUNKED);
+    return k == t0 + 4 && g_s_kind == EM_CRLF;
+}
 /* the whole fixed-length response */
 static inline size_t vs_spec_total(size_t len) { return 6 + 4 * g_nheaders + 3 * g_ncookies + 4 + 1 + (len > 0 ? 1 : 0); }
 static inline bool vs_spec_response(size_t k, int version, int code, const char *data, size_t len)
@@ -117,7 +138,7 @@ static inline bool vs_spec_response(size_t k, int version, int code, const char 
     if (k == l0 + 4) return g_s_kind == EM_CRLF;
     return len > 0 && k == l0 + 5 && g_s_kind == EM_DATA && g_s_ptr == (const void *)data && g_s_len == len;
 }
-#define SAMPLE_KEPT (g_s_kind == OLD(g_s_kind) && g_s_num == OLD(g_s_num) && g_s_ptr == OLD(g_s_ptr) && g_s_lo == OLD(g_s_lo) && g_s_hi == OLD(g_s_hi) && g_s_len == OLD(g_s_len))
+#define SAMPLE_KEPT (g_s_kind == OLD(g_s_kind) && g_s_num == OLD(g_s_num) && g_s_ptr == OLD(g_s_ptr) && g_s_lo == OLD(g_s_lo) && g_s_hi == OLD(g_s_hi) && g_s_x == OLD(g_s_x) && g_s_len == OLD(g_s_len))
 #define COUNT_MAX ((size_t)1 << 32)
 #define EM_BOUND ((size_t)1 << 36)
 static inline bool vs_os_not(const struct vs_ostream *os) { return os->bad; }
@@ -130,6 +151,7 @@ TYPES = {'basic_ostream<char>': 'struct vs_ostream',
          'std::ostream': 'struct vs_ostream', 'std::basic_ostream<char>': 'struct vs_ostream', 'std::streamsize': 'long'}
 STUBS = {
     'ctor:std::ostream/1': 'vs_os_ctor',
+    'Pistache::Http::Header::encodingString': {'expr': '(&vs_enc_names[(int)($0) & 7])'},
     'operator!|std::basic_ios<char>': 'vs_os_not',
     'operator<<|std::ostream,char': {'expr': '(*VS_OS_LIT(&($0), $1))', 'literal_only': [1], 'expr_nonlit': '(*VS_OS_ANY(&($0), $1))'},
     'operator<<|std::ostream,int': {'expr': '(*vs_os_int(&($0), $1))'},
@@ -161,9 +183,9 @@ STUBS = {
 THROWING = []
 ALWAYS_REPLACE = []
 OPAQUE = ['Pistache::DynamicStreamBuf', 'Pistache::Http::Header::Header']
-RECORDS = ['Pistache::Http::Header::ContentLength', 'Pistache::Http::Message', 'Pistache::Http::Response', 'Pistache::Http::ResponseWriter']
+RECORDS = ['Pistache::Http::Header::EncodingHeader', 'Pistache::Http::Header::TransferEncoding', 'Pistache::Http::ResponseStream', 'Pistache::Http::Header::ContentLength', 'Pistache::Http::Message', 'Pistache::Http::Response', 'Pistache::Http::ResponseWriter']
 EXCEPTIONS = {'std::runtime_error': 'VS_EXC_RUNTIME_ERROR', 'Pistache::Error': 'VS_EXC_RUNTIME_ERROR'}
-ENUMS = ['Pistache::Http::Version', 'Pistache::Http::Code']
+ENUMS = ['Pistache::Http::Version', 'Pistache::Http::Code', 'Pistache::Http::Header::Encoding']
 DEFAULT_RULE = True
 ASSUME_PISTACHE = ['Pistache::Http::Timeout', 'Pistache::Tcp::Peer', 'Pistache::Http::ResponseWriter::peer', 'Pistache::Error']
 ASSUME_NOTHROW = ['Pistache::Http::Timeout', 'Pistache::Tcp::Peer']
@@ -172,7 +194,7 @@ OPAQUE_ANY = True
 FUNCTIONS = [
     {'q': 'Pistache::Http::writeStatusLine', 'contract': """
         requires OBJ(buf) && g_em_n <= EM_BOUND && vs_exc == 0
-        assigns g_em_n, g_s_kind, g_s_num, g_s_ptr, g_s_lo, g_s_hi, g_s_len, g_buf_full
+        assigns g_em_n, g_s_kind, g_s_num, g_s_ptr, g_s_lo, g_s_hi, g_s_x, g_lit_x, g_s_len, g_buf_full
         # HTTP-version SP status-code SP reason-phrase CRLF, in this order; true iff the buffer took all of it
         ensures RET ==> (g_em_n == OLD(g_em_n) + 6 && !g_buf_full)
         ensures !RET ==> (g_buf_full && g_em_n <= OLD(g_em_n) + 6)
@@ -181,7 +203,7 @@ FUNCTIONS = [
         ensures !(OLD(g_em_n) <= g_pos && g_pos < g_em_n) ==> SAMPLE_KEPT"""},
     {'q': 'Pistache::Http::writeHeaders', 'contract': """
         requires OBJ(headers) && OBJ(buf) && g_em_n <= EM_BOUND && g_nheaders <= COUNT_MAX && vs_exc == 0
-        assigns g_em_n, g_s_kind, g_s_num, g_s_ptr, g_s_lo, g_s_hi, g_s_len, g_buf_full, vs_idx_slot_v
+        assigns g_em_n, g_s_kind, g_s_num, g_s_ptr, g_s_lo, g_s_hi, g_s_x, g_lit_x, g_s_len, g_buf_full, vs_idx_slot_v
         # every typed header exactly once: name ": " value CRLF
         ensures RET ==> (g_em_n == OLD(g_em_n) + 4 * g_nheaders && g_buf_full == OLD(g_buf_full) && (g_nheaders > 0 ==> !g_buf_full))
         ensures !RET ==> (g_buf_full && g_em_n <= OLD(g_em_n) + 4 * g_nheaders)
@@ -189,18 +211,18 @@ FUNCTIONS = [
         ensures (OLD(g_em_n) <= g_pos && g_pos < g_em_n) ==> vs_spec_headers(g_pos - OLD(g_em_n))
         ensures !(OLD(g_em_n) <= g_pos && g_pos < g_em_n) ==> SAMPLE_KEPT""",
      'loops': ["""
-        assigns __begin2, os.bad, g_em_n, g_s_kind, g_s_num, g_s_ptr, g_s_lo, g_s_hi, g_s_len, g_buf_full, vs_idx_slot_v
+        assigns __begin2, os.bad, g_em_n, g_s_kind, g_s_num, g_s_ptr, g_s_lo, g_s_hi, g_s_x, g_lit_x, g_s_len, g_buf_full, vs_idx_slot_v
         invariant __begin2 <= __end2 && __end2 == g_nheaders && !os.bad && g_em_n == LOOP_ENTRY(g_em_n) + 4 * __begin2
         invariant (g_buf_full ==> (__begin2 == 0 && LOOP_ENTRY(g_buf_full))) && (LOOP_ENTRY(g_buf_full) ==> g_buf_full)
         invariant (LOOP_ENTRY(g_em_n) <= g_pos && g_pos < g_em_n) ==> (
             (g_pos - LOOP_ENTRY(g_em_n)) % 4 == 0 ? g_s_kind == EM_CSTR : (g_pos - LOOP_ENTRY(g_em_n)) % 4 == 1 ? S_LIT(": ")
             : (g_pos - LOOP_ENTRY(g_em_n)) % 4 == 2 ? (g_s_kind == EM_HVAL && (size_t)g_s_num == (g_pos - LOOP_ENTRY(g_em_n)) / 4) : g_s_kind == EM_CRLF)
         invariant !(LOOP_ENTRY(g_em_n) <= g_pos && g_pos < g_em_n) ==> (g_s_kind == LOOP_ENTRY(g_s_kind) && g_s_num == LOOP_ENTRY(g_s_num) && g_s_ptr == LOOP_ENTRY(g_s_ptr)
-            && g_s_lo == LOOP_ENTRY(g_s_lo) && g_s_hi == LOOP_ENTRY(g_s_hi) && g_s_len == LOOP_ENTRY(g_s_len))
+            && g_s_lo == LOOP_ENTRY(g_s_lo) && g_s_hi == LOOP_ENTRY(g_s_hi) && g_s_x == LOOP_ENTRY(g_s_x) && g_s_len == LOOP_ENTRY(g_s_len))
         decreases __end2 - __begin2"""]},
     {'q': 'Pistache::Http::writeCookies', 'contract': """
         requires OBJ(cookies) && OBJ(buf) && g_em_n <= EM_BOUND && g_ncookies <= COUNT_MAX && vs_exc == 0
-        assigns g_em_n, g_s_kind, g_s_num, g_s_ptr, g_s_lo, g_s_hi, g_s_len, g_buf_full, vs_idx_slot_v
+        assigns g_em_n, g_s_kind, g_s_num, g_s_ptr, g_s_lo, g_s_hi, g_s_x, g_lit_x, g_s_len, g_buf_full, vs_idx_slot_v
         # every cookie exactly once: "Set-Cookie: " cookie CRLF
         ensures RET ==> (g_em_n == OLD(g_em_n) + 3 * g_ncookies && g_buf_full == OLD(g_buf_full) && (g_ncookies > 0 ==> !g_buf_full))
         ensures !RET ==> (g_buf_full && g_em_n <= OLD(g_em_n) + 3 * g_ncookies)
@@ -208,20 +230,20 @@ FUNCTIONS = [
         ensures (OLD(g_em_n) <= g_pos && g_pos < g_em_n) ==> vs_spec_cookies(g_pos - OLD(g_em_n))
         ensures !(OLD(g_em_n) <= g_pos && g_pos < g_em_n) ==> SAMPLE_KEPT""",
      'loops': ["""
-        assigns __begin2, os.bad, g_em_n, g_s_kind, g_s_num, g_s_ptr, g_s_lo, g_s_hi, g_s_len, g_buf_full, vs_idx_slot_v
+        assigns __begin2, os.bad, g_em_n, g_s_kind, g_s_num, g_s_ptr, g_s_lo, g_s_hi, g_s_x, g_lit_x, g_s_len, g_buf_full, vs_idx_slot_v
         invariant __begin2 <= __end2 && __end2 == g_ncookies && !os.bad && g_em_n == LOOP_ENTRY(g_em_n) + 3 * __begin2
         invariant (g_buf_full ==> (__begin2 == 0 && LOOP_ENTRY(g_buf_full))) && (LOOP_ENTRY(g_buf_full) ==> g_buf_full)
         invariant (LOOP_ENTRY(g_em_n) <= g_pos && g_pos < g_em_n) ==> (
             (g_pos - LOOP_ENTRY(g_em_n)) % 3 == 0 ? S_LIT("Set-Cookie: ")
             : (g_pos - LOOP_ENTRY(g_em_n)) % 3 == 1 ? (g_s_kind == EM_COOKIE && (size_t)g_s_num == (g_pos - LOOP_ENTRY(g_em_n)) / 3) : g_s_kind == EM_CRLF)
         invariant !(LOOP_ENTRY(g_em_n) <= g_pos && g_pos < g_em_n) ==> (g_s_kind == LOOP_ENTRY(g_s_kind) && g_s_num == LOOP_ENTRY(g_s_num) && g_s_ptr == LOOP_ENTRY(g_s_ptr)
-            && g_s_lo == LOOP_ENTRY(g_s_lo) && g_s_hi == LOOP_ENTRY(g_s_hi) && g_s_len == LOOP_ENTRY(g_s_len))
+            && g_s_lo == LOOP_ENTRY(g_s_lo) && g_s_hi == LOOP_ENTRY(g_s_hi) && g_s_x == LOOP_ENTRY(g_s_x) && g_s_len == LOOP_ENTRY(g_s_len))
         decreases __end2 - __begin2"""]},
     {'q': 'Pistache::Http::Header::ContentLength::ContentLength', 'sig': 'void (uint64_t)', 'c': 'ContentLength_ctor_u64'},
     {'q': 'Pistache::Http::Header::ContentLength::write'},
     {'q': 'Pistache::Http::writeHeader', 'sig': 'IsHeader<ContentLength>::value, basic_ostream<char> &>::type (std::basic_ostream<char> &, unsigned long &)', 'c': 'writeHeader_ContentLength', 'contract': """
         requires OBJ(stream) && OBJ(args) && g_em_n <= EM_BOUND && vs_exc == 0
-        assigns stream->bad, g_em_n, g_s_kind, g_s_num, g_s_ptr, g_s_lo, g_s_hi, g_s_len, g_buf_full
+        assigns stream->bad, g_em_n, g_s_kind, g_s_num, g_s_ptr, g_s_lo, g_s_hi, g_s_x, g_lit_x, g_s_len, g_buf_full
         # "Content-Length" ": " <the number given> CRLF -- all four unless the buffer refuses; a refusal leaves the stream in fail state
         ensures PTR_EQ(RET, stream) && g_em_n >= OLD(g_em_n) && g_em_n <= OLD(g_em_n) + 4
         ensures !stream->bad ==> (g_em_n == OLD(g_em_n) + 4 && g_buf_full == OLD(g_buf_full) && !OLD(stream->bad))
@@ -238,7 +260,7 @@ FUNCTIONS = [
      'contract': """
         requires FRESH(this, sizeof(*this)) && g_em_n == 0 && !g_buf_full && vs_exc == 0 && g_aw_calls == 0 && g_buffer_calls == 0 && !g_rejected_made
         requires g_nheaders <= COUNT_MAX && g_ncookies <= COUNT_MAX && len <= ((size_t)1 << 40) && this->sent_bytes_ <= ((size_t)1 << 60)
-        assigns vs_exc, this->sent_bytes_, this->timeout_, g_em_n, g_s_kind, g_s_num, g_s_ptr, g_s_lo, g_s_hi, g_s_len, g_buf_full, vs_idx_slot_v, g_aw_calls, g_aw_len, g_buffer_calls, g_buffer_size, g_rejected_made
+        assigns vs_exc, this->sent_bytes_, this->timeout_, g_em_n, g_s_kind, g_s_num, g_s_ptr, g_s_lo, g_s_hi, g_s_x, g_lit_x, g_s_len, g_buf_full, vs_idx_slot_v, g_aw_calls, g_aw_len, g_buffer_calls, g_buffer_size, g_rejected_made
         # a runtime_error of peer() (connection gone) becomes a rejected promise; any other exception of the assumed callees propagates
         ensures (vs_exc == 0 || vs_exc == VS_EXC_OTHER_STD) && g_aw_calls <= 1
         # C05: a response that does not fit the configured maximum is refused through a rejected promise: the transport is handed nothing,
@@ -252,15 +274,49 @@ FUNCTIONS = [
                                      && this->sent_bytes_ == OLD(this->sent_bytes_) + g_buffer_size)
         ensures (g_aw_calls == 1 && g_pos < g_em_n) ==> vs_spec_response(g_pos, this->response_.vs_base_Message.version_, this->response_.vs_base_Message.code_, data, len)"""},
 ]
-DEVIRT = {('writeHeader_ContentLength', 'write'): 'Pistache_Http_Header_ContentLength_write',       # local object of the concrete type
+DEVIRT = {('writeHeader_TransferEncoding', 'write'): 'Pistache_Http_Header_EncodingHeader_write', ('writeHeader_ContentLength', 'write'): 'Pistache_Http_Header_ContentLength_write',       # local object of the concrete type
           ('Pistache_Http_writeHeaders', 'name'): 'vs_hdr_name', ('Pistache_Http_writeHeaders', 'write'): 'vs_hdr_write'}
 # an unmodelled callee's 'other std exception' may or may not be a runtime_error
 CATCH_TEST = {'std::runtime_error': '(VS_EXC_IS_RUNTIME($) || (($) == VS_EXC_OTHER_STD && vs_nondet_bool()))'}
+PRELUDE_AFTER_RECORDS = r'''
+_Static_assert(VS_ENC_CHUNKED == Pistache_Http_Header_Encoding_Chunked, "VS_ENC_CHUNKED is Header::Encoding::Chunked");
+'''
 W = ['Pistache_Http_writeStatusLine', 'Pistache_Http_writeHeaders', 'Pistache_Http_writeCookies', 'writeHeader_ContentLength']
+FUNCTIONS += [
+    {'q': 'Pistache::Http::Header::EncodingHeader::EncodingHeader', 'sig': 'void (Pistache::Http::Header::Encoding)', 'c': 'EncodingHeader_ctor_enc'},
+    {'q': 'Pistache::Http::Header::TransferEncoding::TransferEncoding', 'sig': 'void (Pistache::Http::Header::Encoding)', 'c': 'TransferEncoding_ctor_enc'},
+    {'q': 'Pistache::Http::Header::EncodingHeader::write'},
+    {'q': 'Pistache::Http::writeHeader', 'sig': 'IsHeader<TransferEncoding>::value, basic_ostream<char> &>::type (std::basic_ostream<char> &, Pistache::Http::Header::Encoding &&)', 'c': 'writeHeader_TransferEncoding', 'contract': """
+        requires OBJ(stream) && OBJ(args) && g_em_n <= EM_BOUND && vs_exc == 0
+        assigns stream->bad, g_em_n, g_s_kind, g_s_num, g_s_ptr, g_s_lo, g_s_hi, g_s_x, g_lit_x, g_s_len, g_buf_full
+        # "Transfer-Encoding" ": " <text of the encoding given> CRLF -- all four unless the buffer refuses; a refusal leaves the stream in fail state
+        ensures PTR_EQ(RET, stream) && g_em_n >= OLD(g_em_n) && g_em_n <= OLD(g_em_n) + 4
+        ensures !stream->bad ==> (g_em_n == OLD(g_em_n) + 4 && g_buf_full == OLD(g_buf_full) && !OLD(stream->bad))
+        ensures (!OLD(stream->bad) && OLD(g_buf_full)) ==> stream->bad
+        ensures g_buf_full ==> (OLD(g_buf_full) || stream->bad)
+        ensures OLD(g_buf_full) ==> g_buf_full
+        ensures (OLD(g_em_n) <= g_pos && g_pos < g_em_n) ==> vs_spec_transfer_encoding(g_pos - OLD(g_em_n), *args)
+        ensures !(OLD(g_em_n) <= g_pos && g_pos < g_em_n) ==> SAMPLE_KEPT"""},
+    {'q': 'Pistache::Http::ResponseStream::ResponseStream', 'sig': 'void (Pistache::Http::Message &&, std::weak_ptr<Tcp::Peer>, Tcp::Transport *, Pistache::Http::Timeout, size_t, size_t)', 'c': 'ResponseStream_ctor',
+     'contract': """
+        requires FRESH(this, sizeof(*this)) && FRESH(other, sizeof(*other)) && g_em_n == 0 && !g_buf_full && vs_exc == 0
+        requires g_nheaders <= COUNT_MAX && g_ncookies <= COUNT_MAX
+        assigns *this, vs_exc, g_em_n, g_s_kind, g_s_num, g_s_ptr, g_s_lo, g_s_hi, g_s_x, g_lit_x, g_s_len, g_buf_full, vs_idx_slot_v
+        ensures vs_exc == 0 || vs_exc == VS_EXC_RUNTIME_ERROR || vs_exc == VS_EXC_OTHER_STD
+        # C05 (head of a streamed response): status line, every cookie once, every header once, "Transfer-Encoding: chunked", blank line --
+        # exactly these, in this order, when the buffer takes them
+        ensures (vs_exc == 0 && !g_buf_full) ==> g_em_n == vs_spec_stream_head_total()
+        ensures (vs_exc == 0 && !g_buf_full && g_pos < g_em_n) ==> vs_spec_stream_head(g_pos, this->response_.version_, this->response_.code_)
+        # a head that does not fit the configured maximum is not accepted silently: the constructor raises (refusal while writing the typed
+        # headers, or of the final blank line, is the exception: the buffer stays refused, so ends() raises)
+        ensures (vs_exc == 0 && g_buf_full) ==> (g_em_n <= 6 + 3 * g_ncookies + 4 * g_nheaders || g_em_n == vs_spec_stream_head_total())"""},
+]
 PROOFS = [
     {'name': 'writeStatusLine', 'enforce': 'Pistache_Http_writeStatusLine', 'props': ['C05']},
     {'name': 'writeHeaders', 'enforce': 'Pistache_Http_writeHeaders', 'loops': 'contracts', 'props': ['C05']},
     {'name': 'writeCookies', 'enforce': 'Pistache_Http_writeCookies', 'loops': 'contracts', 'props': ['C05']},
     {'name': 'writeHeader_ContentLength', 'enforce': 'writeHeader_ContentLength', 'props': ['C05']},
+    {'name': 'writeHeader_TransferEncoding', 'enforce': 'writeHeader_TransferEncoding', 'props': ['C05']},
+    {'name': 'ResponseStream_ctor', 'enforce': 'ResponseStream_ctor', 'replace': W + ['writeHeader_TransferEncoding'], 'defs': ['-DVS_LIGHT'], 'props': ['C05']},
     {'name': 'putOnWire', 'enforce': 'Pistache_Http_ResponseWriter_putOnWire', 'replace': W, 'defs': ['-DVS_LIGHT'], 'props': ['C05'], 'cost': 30},
 ]
